@@ -618,6 +618,8 @@ class Engine:
         return VSeq(s.kind, ln, lambda i: s.at(a + i), s.elt)
 
     def ev_Attribute(self, node, st):
+        if isinstance(node.value, ast.Name) and node.value.id == "operator" and "operator" not in st.env:
+            return VFunc(builtin="operator." + node.attr, name="operator." + node.attr)
         if isinstance(node.value, ast.Name) and node.value.id in self.reg.records and node.value.id not in st.env:
             cls = node.value.id
             const = self.class_const(cls, node.attr)
@@ -875,6 +877,8 @@ class Engine:
                 env["result"] = self.coerce(env["result"], parse_type(cc.returns))
             text = cc.requires if node.func.id == "pre" else (cc.ensures_text() or "True")
             return VBool(self.truthy(self.ev_clause(text, env)))
+        if isinstance(node.func, ast.Name) and node.func.id in SMT_OPS and node.func.id not in st.env:
+            return SMT_OPS[node.func.id](self, [self.ev(a, st) for a in node.args])
         # str.join
         if isinstance(node.func, ast.Attribute) and node.func.attr == "join" and len(node.args) == 1:
             sep = self.ev(node.func.value, st)
@@ -1494,10 +1498,48 @@ def seq_fold_fn(name: str):
 
 
 def _b_reduce(e: Engine, args, kw, st, ln):
-    """functools.reduce(op, xs[, init]) -- handled by a fold schema: the
-    contract must provide `fold` (a spec of the accumulated value after k
-    elements); obligations: base, step."""
-    raise Unsupported("reduce (fold schema not provided for this call)")
+    """functools.reduce(op, xs[, init]) for op in {operator.and_, operator.or_}
+    over Booleans: assumed contract of reduce over an associative, commutative,
+    idempotent operator -- the fold is the quantifier.  TypeError on an empty
+    sequence without initial value is an exception edge."""
+    f = args[0]
+    if isinstance(f, VFunc) and f.builtin in ("operator.and_", "operator.or_"):
+        s = e.to_seq(args[1])
+        probe = s.at(z3.Int("PROBE"))
+        if not isinstance(probe, VBool):
+            raise Unsupported("reduce(and_/or_) over non-Booleans")
+        if len(args) == 2:
+            e.safety(st, s.length >= 1, "TypeError", ln, "reduce-empty")
+        k = e.bound_var()
+        try:
+            body = s.at(k).t
+        finally:
+            e.unbind()
+        rng = z3.And(k >= 0, k < s.length)
+        r = z3.ForAll([k], z3.Implies(rng, body)) if f.builtin == "operator.and_" else z3.Exists([k], z3.And(rng, body))
+        if len(args) == 3:
+            init = e.truthy(args[2])
+            r = z3.And(init, r) if f.builtin == "operator.and_" else z3.Or(init, r)
+        return VBool(r)
+    raise Unsupported("reduce (only operator.and_/or_ over Booleans is modelled)")
+
+
+def _smt2(fn):
+    return lambda e, a: fn(e, *a)
+
+
+SMT_OPS: Dict[str, Callable] = {
+    # the solver's own operators (SMT-LIB semantics), used as the specification side of C05
+    "smt_mod": _smt2(lambda e, a, b: VInt(e.as_int(a) % e.as_int(b))),
+    "smt_div": _smt2(lambda e, a, b: VInt(e.as_int(a) / e.as_int(b))),
+    "smt_abs": _smt2(lambda e, a: VInt(z3.If(e.as_int(a) >= 0, e.as_int(a), -e.as_int(a)))),
+    "smt_len": _smt2(lambda e, s: VInt(z3.Length(s.t))),
+    "smt_concat": _smt2(lambda e, s, t: VNStr(z3.Concat(s.t, t.t))),
+    "smt_at": _smt2(lambda e, s, i: VNStr(s.t.at(e.as_int(i)))),
+    "smt_substr": _smt2(lambda e, s, i, n: VNStr(z3.SubString(s.t, e.as_int(i), e.as_int(n)))),
+    "smt_to_code": _smt2(lambda e, s: VInt(z3.StrToCode(s.t))),
+    "smt_str_lt": _smt2(lambda e, s, t: VBool(s.t < t.t)),
+}
 
 
 def _b_cnt(e, args, kw, st, ln):
